@@ -45,6 +45,35 @@ pub open spec fn lex_lt(a: Seq<u8>, b: Seq<u8>) -> bool decreases a.len() {
 /// rule R4c: `a < b` on byte slices (TRUSTED: std's slice ordering is lexicographic)
 #[verifier::external_body] pub fn vx_lt_bytes(a: &[u8], b: &[u8]) -> (r: bool) ensures r == lex_lt(a@, b@) { a < b }
 
+// ---- char / str classification methods outside the verifier's std library: uninterpreted, so that code using them can at
+// least be read; any contract that depends on their meaning then fails or holds on the strength of the other facts alone
+pub uninterp spec fn ch_is_ascii(c: char) -> bool;
+pub uninterp spec fn ch_is_ascii_alphanumeric(c: char) -> bool;
+pub uninterp spec fn ch_is_ascii_alphabetic(c: char) -> bool;
+pub uninterp spec fn ch_is_ascii_digit(c: char) -> bool;
+pub uninterp spec fn ch_is_ascii_whitespace(c: char) -> bool;
+pub uninterp spec fn ch_is_ascii_uppercase(c: char) -> bool;
+pub uninterp spec fn ch_is_ascii_lowercase(c: char) -> bool;
+pub uninterp spec fn ch_is_uppercase(c: char) -> bool;
+pub uninterp spec fn ch_is_lowercase(c: char) -> bool;
+pub uninterp spec fn ch_is_numeric(c: char) -> bool;
+pub assume_specification [char::is_ascii] (c: &char) -> (r: bool) ensures r == ch_is_ascii(*c);
+pub assume_specification [char::is_ascii_alphanumeric] (c: &char) -> (r: bool) ensures r == ch_is_ascii_alphanumeric(*c);
+pub assume_specification [char::is_ascii_alphabetic] (c: &char) -> (r: bool) ensures r == ch_is_ascii_alphabetic(*c);
+pub assume_specification [char::is_ascii_digit] (c: &char) -> (r: bool) ensures r == ch_is_ascii_digit(*c);
+pub assume_specification [char::is_ascii_whitespace] (c: &char) -> (r: bool) ensures r == ch_is_ascii_whitespace(*c);
+pub assume_specification [char::is_ascii_uppercase] (c: &char) -> (r: bool) ensures r == ch_is_ascii_uppercase(*c);
+pub assume_specification [char::is_ascii_lowercase] (c: &char) -> (r: bool) ensures r == ch_is_ascii_lowercase(*c);
+pub assume_specification [char::is_uppercase] (c: char) -> (r: bool) ensures r == ch_is_uppercase(c);
+pub assume_specification [char::is_lowercase] (c: char) -> (r: bool) ensures r == ch_is_lowercase(c);
+pub assume_specification [char::is_numeric] (c: char) -> (r: bool) ensures r == ch_is_numeric(c);
+pub uninterp spec fn str_ascii_lower(s: Seq<char>) -> Seq<char>;
+pub uninterp spec fn str_ascii_upper(s: Seq<char>) -> Seq<char>;
+pub uninterp spec fn str_upper(s: Seq<char>) -> Seq<char>;
+pub assume_specification [str::to_ascii_lowercase] (s: &str) -> (r: String) ensures r@ == str_ascii_lower(s@);
+pub assume_specification [str::to_ascii_uppercase] (s: &str) -> (r: String) ensures r@ == str_ascii_upper(s@);
+pub assume_specification [str::to_uppercase] (s: &str) -> (r: String) ensures r@ == str_upper(s@);
+
 /// rule R25: stands for dbg!/println!/eprintln!/print!/eprint! in verified code. Interpreters must not write to the process's
 /// standard streams, so the call is specified as unreachable.
 #[verifier::external_body] pub fn vx_std_stream_output()
